@@ -765,7 +765,8 @@ def gen_age(rng, cfg):
 
 
 def gen_aged_history(rng):
-    case = gen_history(rng, "M1")
+    # (a third of them with injected aborts: what an aged object does after an aborted call)
+    case = gen_history(rng, "M2" if rng.random() < 0.33 else "M1")
     case["stream"] = "M1aged"
     case.pop("pristine", None)
     objs = [dict(o) for o in case["objs"]]
